@@ -38,14 +38,15 @@ const (
 )
 
 var ifRangeValues = map[string]string{
-	"":             "",
-	"match-etag":   etagV1,
-	"other-etag":   `"v0"`,
-	"weak-etag":    `W/"v1"`,
-	"match-date":   lastModV1,
-	"earlier-date": "Sun, 01 Jan 2006 15:04:05 GMT",
-	"later-date":   "Tue, 03 Jan 2006 15:04:05 GMT",
-	"garbage":      "yesterday-ish",
+	"":               "",
+	"match-etag":     etagV1,
+	"other-etag":     `"v0"`,
+	"weak-etag":      `W/"v1"`,
+	"match-date":     lastModV1,
+	"earlier-date":   "Sun, 01 Jan 2006 15:04:05 GMT",
+	"second-earlier": "Mon, 02 Jan 2006 15:04:04 GMT", // the resolution of an HTTP-date: the nearest miss
+	"later-date":     "Tue, 03 Jan 2006 15:04:05 GMT",
+	"garbage":        "yesterday-ish",
 }
 
 var reCR = regexp.MustCompile(`^bytes (\d+)-(\d+)/(\d+)$`)
@@ -129,7 +130,7 @@ var subE2E = ev.Register("range-e2e",
 			return ev.Failf("range-e2e.bad-framing", "Range %q: status %d, body read error %v after %d bytes", c.Range, resp.Status, resp.ReadErr, len(resp.Body))
 		}
 		o.Classf("status:%d", resp.Status)
-		mismatch := c.IfRange == "other-etag" || c.IfRange == "weak-etag" || c.IfRange == "earlier-date" || c.IfRange == "garbage"
+		mismatch := c.IfRange == "other-etag" || c.IfRange == "weak-etag" || c.IfRange == "earlier-date" || c.IfRange == "second-earlier" || c.IfRange == "garbage"
 		either := c.IfRange == "later-date"
 		switch resp.Status {
 		case 206:
@@ -204,7 +205,7 @@ func drawE2E(t *rapid.T) E2ECase {
 		Prime:        rapid.IntRange(0, 3).Draw(t, "prime") != 0,
 		RetryInvalid: rapid.Bool().Draw(t, "retry_invalid"),
 		Retry416:     rapid.Bool().Draw(t, "retry_416"),
-		IfRange:      rapid.SampledFrom([]string{"", "", "", "match-etag", "other-etag", "weak-etag", "match-date", "earlier-date", "later-date", "garbage"}).Draw(t, "ifrange"),
+		IfRange:      rapid.SampledFrom([]string{"", "", "", "match-etag", "other-etag", "weak-etag", "match-date", "earlier-date", "second-earlier", "later-date", "garbage"}).Draw(t, "ifrange"),
 		Chunked:      rapid.IntRange(0, 4).Draw(t, "chunked") == 0,
 	}
 	if !c.Prime && rapid.Bool().Draw(t, "twin") {
